@@ -717,10 +717,14 @@ def pull_kinds_rule(repo, rep, r6, mp):
     pulls = {}
     for n, f in mp.methods.items():
         if n.startswith('Pull'):
-            for c in walk_no_nested(f.node):
+            from ..inline import Flat as _FlatP
+            from ..flow import value_of as _voP
+            fp = _FlatP(f, keep=('_pull_response',), aliases=True)
+            for c in walk_no_nested(fp.node):
                 if isinstance(c, ast.Call) and \
                         dotted(c.func) == 'self._pull_response' and c.args:
-                    pulls[n] = const_str(c.args[0])
+                    pulls[n] = const_str(c.args[0]) or \
+                        const_str(_voP(f, c.args[0]))
     for n, lit in sorted(pulls.items()):
         r6.sites += 1
         ok = lit == n
